@@ -8,6 +8,9 @@ for **all** strings / token lists, not only the bounded scopes of the correspond
 * `tokenize_total`, `tokenize_never_fails`, `tokenize_fuel_independent` - termination and
   totality: with the entry fuel `|s| + 1` the scanner never runs out of fuel and never
   returns another error; more fuel never changes the answer.
+* `object_model_eq`, `cursor_refinement` - the scanner written method by method on
+  `TokenParser`'s object state (what the correspondence run executes) is the scanner on the
+  remaining text that the other theorems speak about.
 * `quote_roundtrip` - every list of tokens written down in single quotes, double quotes
   (token `expressible`) or bare (token non-empty, no whitespace/quote/backslash), separated
   by arbitrary non-empty whitespace, with optional leading and trailing whitespace,
@@ -47,21 +50,34 @@ theorem tokenize_fuel_independent (s : Str) (n : Nat) (h : s.length + 1 ≤ n) :
 /-- `StringArgs(s)` can be constructed for every string. -/
 theorem stringArgs_total (s : Str) : ∃ a, stringArgs s = .ok a := by
   obtain ⟨ts, h⟩ := tokenize_total s
-  exact ⟨⟨none, ts, optionTokens ts⟩, by simp only [stringArgs, h]⟩
+  exact ⟨⟨none, ts, optionTokens ts⟩, by simp only [stringArgs_eq, h]⟩
 
 /-! ## the look-ahead state of the Python object and the remaining text -/
 
 /-- `TokenParser.parse` establishes the invariant `_current = _string[_cursor]`,
 `_next_ = _string[_cursor+1]`; `_next()` preserves it and acts on the remaining text
 `_string[_cursor:]` as "drop one character"; `_is_valid()` says that text remains.  This is
-the abstraction under which `pq`/`ptok`/`toks` mirror the methods of the class. -/
+the abstraction under which `pq`/`ptok`/`toks` mirror the methods of the class; the one
+method that reads the look-ahead, `_parse_escape_sequence`, is `esc` on the remaining text. -/
 theorem cursor_refinement (s : Str) :
     (Cursor.init s).WF ∧ (Cursor.init s).rest = s ∧
     ∀ c : Cursor, c.WF →
       c.next.WF ∧ c.next.rest = c.rest.drop 1 ∧ c.isValid = !c.rest.isEmpty ∧
-      c.current = c.rest.head? ∧ c.next_ = (c.rest.drop 1).head? :=
+      c.current = c.rest.head? ∧ c.next_ = (c.rest.drop 1).head? ∧
+      c.escape.1 = (esc (c.rest.drop 1)).1 ∧ c.escape.2.rest = (esc (c.rest.drop 1)).2 ∧
+      c.escape.2.WF :=
   ⟨Cursor.init_wf s, Cursor.init_rest s, fun _ h =>
-    ⟨Cursor.next_wf h, Cursor.rest_next h, Cursor.isValid_iff h, Cursor.current_eq h⟩⟩
+    ⟨Cursor.next_wf h, Cursor.rest_next h, Cursor.isValid_iff h, (Cursor.current_eq h).1,
+      (Cursor.current_eq h).2, Cursor.escape_eq h⟩⟩
+
+/-- The scanner written method by method on the object state (`tokenizeC`, what the
+correspondence run executes against the real `TokenParser`) and the scanner on the remaining
+text (`tokenize`, what the theorems below speak about) are the same function. -/
+theorem object_model_eq (s : Str) : tokenizeC s = tokenize s := tokenizeC_eq s
+
+/-- Hence termination and totality for the method-by-method model as well. -/
+theorem object_model_total (s : Str) : ∃ ts, tokenizeC s = .ok ts := by
+  rw [tokenizeC_eq]; exact tokenize_total s
 
 /-! ## quoting round trip -/
 
@@ -103,7 +119,7 @@ theorem string_argv_same (s : Str) (script : Str) (ts : List Str) (h : tokenize 
     ∃ a b, stringArgs s = .ok a ∧ argvArgs (script :: ts) = .ok b ∧
       a.tokens = ts ∧ b.tokens = ts ∧ a.optionTokens = b.optionTokens :=
   ⟨⟨none, ts, optionTokens ts⟩, ⟨some script, ts, optionTokens ts⟩,
-    by simp only [stringArgs, h], rfl, rfl, rfl, rfl⟩
+    by simp only [stringArgs_eq, h], rfl, rfl, rfl, rfl⟩
 
 /-- Round trip at the level of raw args: the rendered command string and the argv list of
 the tokens are indistinguishable by `tokens` and `option_tokens`. -/
@@ -156,7 +172,7 @@ theorem option_tokens_raw (s script : Str) (argv : List Str) :
       b.tokens = argv ∧ b.optionTokens = argv.takeWhile (fun t => t != ['-', '-'])) := by
   constructor
   · intro a h
-    simp only [stringArgs] at h
+    simp only [stringArgs_eq] at h
     split at h
     · cases h
     · cases h; rfl
